@@ -123,7 +123,7 @@ func sortedBytes(rng *rand.Rand, n, length int) [][]byte {
 	}
 }
 
-func worlds(seed int64, thorough bool) []*world {
+func worlds(seed int64, thorough bool, maxSlot int) []*world {
 	rng := rand.New(rand.NewSource(seed*7919 + 17))
 	var ws []*world
 	// 1. small numbers, as in the model
@@ -141,7 +141,7 @@ func worlds(seed int64, thorough bool) []*world {
 	ws = append(ws, &world{
 		name: "top", bn: [3]uint64{0, 1 << 63, maxU},
 		vrf:   [3][]byte{bytes.Repeat([]byte{0x00}, 64), mid, bytes.Repeat([]byte{0xff}, 64)},
-		noVRF: []byte{}, sBase: maxU - 4, sMul: 1, dScale: 1 << 20,
+		noVRF: []byte{}, sBase: maxU - uint64(maxSlot), sMul: 1, dScale: 1 << 20, // the last model slot is 2^64-1
 		depth: func(fb, tb, k int) (uint64, uint64, uint64) {
 			sh := maxU - 3 // abstract block numbers are 0..3
 			return uint64(fb) + sh, uint64(tb) + sh, uint64(k)
@@ -223,7 +223,7 @@ func (w *world) windowed(t tipRow, rng *rand.Rand) *consensus.WindowedChainTip {
 
 // simple builds a SimpleChainTip carrying the model's legacy density numbers.
 func (w *world) simple(t tipRow, dens []int) *consensus.SimpleChainTip {
-	return consensus.NewSimpleChainTipWithDensity(w.slot(4), w.bn[t.BN], w.vrfOf(t.VRF),
+	return consensus.NewSimpleChainTipWithDensity(w.slot(1), w.bn[t.BN], w.vrfOf(t.VRF),
 		uint64(dens[1])*w.dScale, uint64(dens[2])*w.dScale)
 }
 
@@ -381,8 +381,8 @@ func (r *runner) pair(p pairRow, rng *rand.Rand) {
 		} else {
 			// fragment-level Genesis comparison: window density, then length
 			gs := genesis.NewGenesisSelector(genesis.GenesisConfig{SecurityParam: cc.k, GenesisWindow: cc.win})
-			fa := &fragment{fs: cc.fork.Slot, tip: r.w.slot(4), blocks: r.w.bn[p.A.BN], inWindow: uint64(p.DA[0]), wantWindow: cc.win}
-			fb := &fragment{fs: cc.fork.Slot, tip: r.w.slot(4), blocks: r.w.bn[p.B.BN], inWindow: uint64(p.DB[0]), wantWindow: cc.win}
+			fa := &fragment{fs: cc.fork.Slot, tip: r.w.slot(1), blocks: r.w.bn[p.A.BN], inWindow: uint64(p.DA[0]), wantWindow: cc.win}
+			fb := &fragment{fs: cc.fork.Slot, tip: r.w.slot(1), blocks: r.w.bn[p.B.BN], inWindow: uint64(p.DB[0]), wantWindow: cc.win}
 			if got := sign(gs.Compare(fa, fb)); got != p.Frag || fa.badWindow || fb.badWindow {
 				r.rep.Disagree(base+":op=genesis-compare", fmt.Sprintf("GenesisSelector.Compare = %d (window passed on correctly: %v), model %d",
 					got, !(fa.badWindow || fb.badWindow), p.Frag), rp)
@@ -501,7 +501,22 @@ func main() {
 	if errP != nil && errT != nil {
 		rep.Dead("no pairs.ndjson (%v) and no triples.ndjson (%v)", errP, errT)
 	}
-	ws := worlds(seed, vh.Tier() == "thorough")
+	maxSlot := 1
+	for _, p := range pairs {
+		for _, t := range []tipRow{p.A, p.B} {
+			for _, sl := range t.Slots {
+				maxSlot = max(maxSlot, sl)
+			}
+		}
+	}
+	for _, t := range triples {
+		for _, tip := range t.T {
+			for _, sl := range tip.Slots {
+				maxSlot = max(maxSlot, sl)
+			}
+		}
+	}
+	ws := worlds(seed, vh.Tier() == "thorough", maxSlot)
 	for wi, w := range ws {
 		r := &runner{rep: rep, w: w}
 		for _, d := range deeps {
@@ -514,15 +529,30 @@ func main() {
 		parallel(len(pairs), func(i int) { r.pair(pairs[i], rowRng(1, i)) })
 		parallel(len(triples), func(i int) { r.triple(triples[i], rowRng(2, i)) })
 	}
-	if len(pairs) > 0 {
-		p := pairs[len(pairs)*2/3]
-		rep.Sample(map[string]any{"kind": "pair", "ctx": fmtCtx(p.Ctx), "deep": p.Deep, "a": fmtTip(p.A), "b": fmtTip(p.B), "compare": p.Cmp, "compareWithDensity": p.Cwd})
-		p = pairs[len(pairs)/2]
-		rep.Sample(map[string]any{"kind": "pair", "ctx": fmtCtx(p.Ctx), "deep": p.Deep, "a": fmtTip(p.A), "b": fmtTip(p.B), "compare": p.Cmp, "compareWithDensity": p.Cwd})
+	// samples: a deep pair that density decides against the longer chain, a shallow pair
+	// with different densities, a triple whose maximal candidates differ between the rules
+	pairSample := func(p pairRow) {
+		rep.Sample(map[string]any{"kind": "pair", "ctx": fmtCtx(p.Ctx), "deep": p.Deep, "a": fmtTip(p.A), "b": fmtTip(p.B),
+			"blocks_in_window": []int{p.DA[0], p.DB[0]}, "compare": p.Cmp, "compareWithDensity": p.Cwd})
 	}
-	if len(triples) > 0 {
-		t := triples[len(triples)*2/3]
-		rep.Sample(map[string]any{"kind": "triple", "ctx": fmtCtx(t.Ctx), "deep": t.Deep, "tips": []string{fmtTip(t.T[0]), fmtTip(t.T[1]), fmtTip(t.T[2])}, "maximal_praos": t.Max, "maximal_density": t.MaxD})
+	for _, p := range pairs {
+		if p.Deep && p.Cmp != 0 && p.Cwd == -p.Cmp && p.Ctx[4] > 0 {
+			pairSample(p)
+			break
+		}
+	}
+	for _, p := range pairs {
+		if !p.Deep && p.Cmp != 0 && p.DA[0] != p.DB[0] && sign(p.DA[0]-p.DB[0]) == -p.Cmp {
+			pairSample(p)
+			break
+		}
+	}
+	for _, t := range triples {
+		if len(t.Max) == 1 && len(t.MaxD) == 1 && t.Max[0] != t.MaxD[0] {
+			rep.Sample(map[string]any{"kind": "triple", "ctx": fmtCtx(t.Ctx), "deep": t.Deep,
+				"tips": []string{fmtTip(t.T[0]), fmtTip(t.T[1]), fmtTip(t.T[2])}, "maximal_praos": t.Max, "maximal_density": t.MaxD})
+			break
+		}
 	}
 	names := make([]string, len(ws))
 	for i, w := range ws {
